@@ -205,6 +205,9 @@ static void build_ops() {
 	ops.clear();
 	auto add = [](uint8_t k, int a = 0, int b = 0, int c = 0) { ops.push(Op{k, static_cast<uint8_t>(a), static_cast<uint8_t>(b), static_cast<uint8_t>(c)}); };
 	if (opt.og & OG_CORE) { add(OP_UPDATE); for (int k_i = 0, k = g_ids[0]; k_i < g_nids; ++k_i, k = g_ids[k_i < g_nids ? k_i : 0]) add(OP_CHANGE, k); }
+#if !VX_TFORM
+	if (opt.og & OG_WITHDRAW) { add(OP_CHANGE, NONE8); add(OP_IMM, NONE8); }
+#endif
 	if (opt.og & (OG_CORE | OG_IMM)) for (int k_i = 0, k = g_ids[0]; k_i < g_nids; ++k_i, k = g_ids[k_i < g_nids ? k_i : 0]) add(OP_IMM, k);
 	if (opt.og & OG_REACT) { add(OP_REACT);
 #if VX_EVB
@@ -448,7 +451,7 @@ static void explore_op(long pre_idx, const Abs* pre, const Op& op, int maxdev, b
 			} else if (store.find(g_postkey) < 0) die("closure violated: successor state not in the closed set (op %s)", OP_NAME[op.k]);
 		}
 		if (monitors) companions(E);   // after interning: companions re-use slot 0
-		if (monitors && (opt.props & (1u << C09)) && g_ghost_diverged && !E.terminal && !E.overflow) { const long pi = store.find(g_postkey); const PlanGhost gh = g_ghost_out; if (pi >= 0 && gh.valid) ghost_lookahead(pi, gh, 2); }
+		if (monitors && (opt.props & (1u << C09)) && g_ghost_diverged && !E.terminal && !E.overflow) { const long pi = store.find(g_postkey); const PlanGhost gh = g_ghost_out; if (pi >= 0 && gh.valid) ghost_lookahead(pi, gh, 3); }
 		if (dv.n < maxdev) {
 			const int start = dv.n ? dv.pos[dv.n - 1] + 1 : 0;
 			for (int i = nch - 1; i >= start; --i) for (int alt = menu[i] - 1; alt >= 1; --alt) { DevVec c = dv; c.pos[c.n] = static_cast<uint16_t>(i); c.alt[c.n] = static_cast<uint16_t>(alt); ++c.n; stack.push(c); }
